@@ -27,7 +27,7 @@ CHUNK = {'quick': 10, 'thorough': 20}
 RULE = ('one case = one seeded history (8-40 ops) of unconditional GETs, conditional GETs (If-None-Match: current / '
         'previous / garbage; If-Modified-Since: before / equal / after / previous copy / ancient / malformed, spelled as IMF-fixdate, RFC 850 or asctime), clock advances, rewrites through the '
         'expiry path and upstream-500 periods, over 2-4 tile URLs of one service flavour (TMS, KML, WMTS REST, WMTS KVP, '
-        'WMS-C) on one backend (a single cache, or a cache cutting its tiles out of an inner cache with a larger tile size) in a seeded fixed-offset local time zone (about one case in twelve is a race instead: a seeding process rewrites the tile through the cache API while 1-2 requests for it are served, scheduled at file-system-call granularity); non-trivial = at least one conditional request was judged against a cached tile or a fill '
+        'WMS-C) on one backend (a single cache - optionally with an invisible watermark filter -, a cache cutting its tiles out of an inner cache with a larger tile size, or WMS-C requests merged from two cached layers) in a seeded fixed-offset local time zone (about one case in twelve is a race instead: a seeding process rewrites the tile through the cache API while 1-2 requests for it are served, scheduled at file-system-call granularity); non-trivial = at least one conditional request was judged against a cached tile or a fill '
         'image was served; distinct = distinct (deployment, ops) hash')
 COMPONENTS = {
     'real': ['mapproxy.config.loader.ProxyConfiguration (app built from a config dict)', 'mapproxy.wsgiapp.MapProxyApp',
